@@ -28,6 +28,7 @@ try:
         shutil.copy(sp, os.path.join(wt, dst)); placed.append(dst)
     cmd = meta.get("demo_cmd", "")
     cmd = re.sub(r"cd\s+(<[^>]*>|\S+)\s*(&&|;)", "", cmd)
+    cmd = re.sub(r"\s{2,}\(.*$", "", cmd.strip())  # trailing remarks in parentheses
     res["demo_cmd"] = cmd
     rc, out = sh(cmd, cwd=wt, timeout=1500)
     res["demo_without_change"] = {"rc": rc, "tail": out[-600:]}
